@@ -583,6 +583,12 @@ def run(tier):
     for r in sup[::max(1, len(sup) // 5)][:5]:
         cov["samples"].append({"q": r["q"], "e1": L.show(r["e1"]),
                                "e2": L.show(r["e2"]), "answer": r["answer"]})
+    for fid, rec in sorted(out.known_examples.items()):      # one witness per finding
+        cov["samples"].append({"known_finding": fid, "clause": rec["clause"],
+                               "q": rec["case"]["query"], "e1": rec["case"]["e1"],
+                               "e2": rec["case"]["e2"], "answer": rec["case"]["answer"],
+                               "expanded": rec["case"]["expanded"],
+                               "witness": rec["detail"]})
     return out.finish(cov, assumptions=[
         "valuations: every variable in -4..4 (quick) / -6..6 (thorough); "
         "intermediate results beyond 30000 make the valuation undefined (excluded)",
